@@ -310,6 +310,9 @@ def _gen_world(r, k):
                     if p['default'] != A.NO_DEFAULT:
                         p['default'] = {'v': None}
                         p['nospell'] = True
+                if fam == 'int' and p['dpd'] and p['dtype'] is None and p['default'] != A.NO_DEFAULT and random.Random(f'dpdstr:{p["name"]}:{pool}').random() < 0.6:
+                    # a configured value that differs from the default only by its type ('2' next to the default 2) is another computation
+                    p['pool'] = pool + [str(pool[0])]
                 params.append(p)
             # inputs: earlier classes of this pipeline (rel '') or classes of reachable pipelines
             cands = [('', c2) for c2 in cids]
